@@ -23,6 +23,13 @@ def oracle(line: str, obs: Obs):
     state, live, direction = {}, {}, {}
     for ev, lines in obs.blocks:
         t = ev.split(" ")
+        if t[0] == "stopin":
+            newc = [l for l in lines if l.startswith("CONN ") and l.split(" ")[1] not in state]
+            if newc or any(l.startswith("OUT ") for l in lines):
+                fails.append({"what": "a peer was dialled / something was sent although the node was already stopping (forced stop "
+                                      "arriving while the I/O loop slept)", "event": ev[:200], "real": str(newc + [l for l in lines if l.startswith("OUT ")])[:300]})
+            if not any(l == "STOPPED" for l in lines):
+                fails.append({"what": "stop() did not return normally", "event": ev[:200], "real": ""})
         if t[0] == "stop":
             force = t[1] == "1"
             ready_before = [c for c, s in state.items() if s in ("READY", "WAITDWA") and live.get(c) == "1"]
@@ -146,6 +153,11 @@ def scenarios(rng: random.Random, tier: str):
         out.append(CFG + " | start ok | stop 0 %d rx_0_%s adv_6 adv_1 adv_6" % (tmo, nodegen.cea(2001, "peer3.x", n(), n())))
         out.append(CFG + " | start ok | acc | rx 1 " + nodegen.cer("peer1.x", "4", n(), n()) +
                    " | stop 0 %d rx_0_%s adv_6 rx_1_%s adv_6" % (tmo, nodegen.cea(2001, "peer3.x", n(), n()), nodegen.dpa(n(), n(), "peer1.x")))
+    # a forced stop() called while the I/O loop sleeps; the reconnect deadline of the persistent peer passes during that sleep:
+    # the pass the loop is in must not dial any more
+    for pre_adv, dt in ((1, 1), (1, 2), (0, 2), (1, 5)):
+        out.append(CFG + f" | start fail | adv {pre_adv} | stopin 1 {dt}")
+        out.append(CFG + f" | start fail | acc | rx 1 " + nodegen.cer("peer1.x", "4", n(), n()) + f" | adv {pre_adv} | stopin 1 {dt}")
     # two ready peers whose DPAs arrive in the same pass of the I/O loop
     for tmo in (3, 6):
         pre2 = (CFG + " | start fail | acc | rx 1 " + nodegen.cer("peer1.x", "4", n(), n()) + " | acc | rx 2 " +
